@@ -296,10 +296,10 @@ func (s *State) iteValue(c *Term, a, b Value) Value {
 			return &PtrV{Nil: Ite(c, x.Nil, y.Nil), Obj: x.Obj, Elem: x.Elem}
 		}
 		if x.Nil.IsTrue() {
-			return &PtrV{Nil: Or(c, y.Nil), Obj: y.object(), Path: y.Path, Elem: y.Elem}
+			return &PtrV{Nil: Or(c, y.Nil), Obj: y.Obj, lazy: y.lazy, Path: y.Path, Elem: y.Elem, Addr: y.Addr}
 		}
 		if y.Nil.IsTrue() {
-			return &PtrV{Nil: Or(Not(c), x.Nil), Obj: x.object(), Path: x.Path, Elem: x.Elem}
+			return &PtrV{Nil: Or(Not(c), x.Nil), Obj: x.Obj, lazy: x.lazy, Path: x.Path, Elem: x.Elem, Addr: x.Addr}
 		}
 	case *StructV:
 		y := b.(*StructV)
